@@ -41,7 +41,7 @@ func sinkTracks(c *Ctx, createPrefix string) []engine.Track {
 		}),
 		engine.PredCond("closeErr", func(cd engine.Cond) (bool, int) {
 			if cd.IsRel && strings.HasPrefix(cd.X, createPrefix) && strings.HasSuffix(cd.X, ".Close()") && cd.Y == "nil" {
-				if cd.EdgeOrd(true) == engine.LT|engine.GT {
+				if isNEc(cd) {
 					return true, engine.True
 				}
 				return true, engine.False
@@ -64,7 +64,7 @@ func c11R1(c *Ctx, rule string) {
 		engine.Event("persist", c.P.IsCallTo(engine.Is("iface:FSMSnapshot.Persist"))),
 		engine.PredCond("persistErr", func(cd engine.Cond) (bool, int) {
 			if cd.IsRel && strings.Contains(cd.X, ".snapshot.Persist(") && cd.Y == "nil" {
-				if cd.EdgeOrd(true) == engine.LT|engine.GT {
+				if isNEc(cd) {
 					return true, engine.True
 				}
 				return true, engine.False
